@@ -252,14 +252,17 @@ func (r *OpRun) nsStoppedMatchingBeforeNsInformer(mid string, b *KubeBinding, ns
 	return stopped < first
 }
 
-// noInformerFor: the monitor has no informer for that namespace that was ever loaded.
+// noInformerFor: the monitor's current informer for that namespace never got its initial list.
 func (r *OpRun) noInformerFor(mid, ns string) bool {
+	// the monitor of a binding is created again when the task that enables the bindings is retried
+	// (same monitor id): what counts is the informer created last for that namespace
+	var last *riObs
 	for _, ri := range r.obs.ByMonitor(mid) {
-		if (ri.NS == ns || ri.NS == "") && ri.loaded {
-			return false
+		if ri.NS == ns || ri.NS == "" {
+			last = ri
 		}
 	}
-	return true
+	return last == nil || !last.loaded
 }
 
 // onlyListed: the informers of the monitor were shown the object only in their own initial list.
